@@ -52,5 +52,13 @@ META["C10"] = {
     "note": "Trusted: Lean kernel, transcription (validated by replay), counting writer. The status table is correspondence-level (monitor + model agreement), the exactly-once discipline is proof-level.",
 }
 
+META["C20"] = {
+    "category": "proof",
+    "design_ref": "DESIGN.md section 5 / C20",
+    "technique": "Lean 4: first-occurrence de-duplication spec with sublist/no-duplicate/completeness theorems and a proof that the transcribed remove-loop computes it; header-discipline monitor proved for the GET tail; SHA-256/base64/IMF-date oracles written in Lean (FIPS and RFC vectors by kernel evaluation) applied to the bytes the real handlers wrote; trace replay",
+    "text": "De-duplication is proved for lists of any length: the transcription of dedupeOrderedItems returns exactly the first occurrence of every id in the original order (subsequence, ids pairwise distinct, every id kept). Headers are set before the status with the constant Content-Type and a Date computed from the application's clock (proved for the GET tail). On every run the Digest, Date, body faithfulness (GetOutbox: identical; GetInbox: first occurrences; handler: only bto/bcc removed, at every object depth), 410 for Tombstones and ErrNotFound-without-writes are re-computed by independent Lean oracles from what the real code wrote.",
+    "note": "Trusted: Lean kernel; crypto/sha256, encoding/base64 and time.Format are modelled by independent Lean implementations and compared byte-for-byte, not verified; transcription validated by replay.",
+}
+
 _ALL = ["C%02d" % i for i in range(1, 21)]
 NOT_APPLICABLE = [{"property_id": p, "reason": PENDING} for p in _ALL if p not in META]
